@@ -126,6 +126,18 @@ class Repo(object):
         m.pyx_lines = d['lines']
         m.dropped = d['dropped']
         m.is_cython = True
+        # machine-integer view (pyvc/cint.py): same text with typed casts,
+        # declared C types of arguments / attributes / typedefs
+        m.ctypes = d.get('ctypes', {})
+        m.cattrs = d.get('cattrs', {})
+        m.typedefs = d.get('typedefs', {})
+        if d.get('typed_text'):
+            mt = ModuleInfo(name, path, d['typed_text'])
+            mt.pyx_lines = d['lines']
+            mt.dropped = d['dropped']
+            mt.is_cython = True
+            mt.orig_sha = m.orig_sha
+            m.typed = mt
         self._mods[key] = m
         return m
 
